@@ -450,6 +450,146 @@ def check_cmp_units(rep):
         raise AnalysisBroken('L-CMP-UNITS: only %d bsf/tzcnt sites typed (39 confirmed by hand)' % nsites)
 
 
+def check_construn(rep, mod):
+    """the one-shot fast path for inputs that start with a long run of 0x00 / 0xFF emits a canned dynamic header (which already contains the
+    first literal), (L-1)/258 two-bit codes for "match 258 at distance 1" as zero bits, and a fix-up for the (L-1)%258 remaining bytes."""
+    import constinterp, rfc1951, struct, irrules
+    R = rep.rule('T-CONSTRUN', 'write_constant_compressed_stateless: (a) each canned 16-byte header is a complete, non-final RFC 1951 dynamic block header followed by exactly the literal 0x00 / 0xFF; '
+                 '(b) under that header\'s code two zero bits decode to "length 258, distance 1"; (c) partitioning on r = (repeated_length-1) % 258 (the only input the fix-up depends on; all 258 values, '
+                 'constant propagation through the data-independent loops), every write_bits value fits its bit count and the emitted codes decode, under the header\'s code, to literals / distance-1 matches '
+                 'of total length exactly r followed by end-of-block; (d) the number of zero bits is 2*((repeated_length-1)/258)', floor=264, unit="obligations")
+    f = mod.funcs.get('write_constant_compressed_stateless')
+    g = mod.globals.get('repeated_char_header')
+    where = 'igzip/igzip.c:write_constant_compressed_stateless'
+    if f is None or g is None:
+        raise AnalysisBroken('write_constant_compressed_stateless / repeated_char_header not found in the linked IR')
+    rows = re.findall(r'\[5 x i32\] \[([^\]]*)\]', g)
+    if len(rows) != 2:
+        raise AnalysisBroken('repeated_char_header: unexpected initialiser %s' % g[:120])
+    tables = []
+    for k, row in enumerate(rows):
+        words = [int(x.split()[-1]) & 0xffffffff for x in row.split(',')]
+        data = struct.pack('<5I', *words)[:16]
+        R.instance()
+        try:
+            bfinal, btype, ll, dl, p = rfc1951.parse_block_header(data, 128)
+            codes_l, codes_d = rfc1951.canonical(ll), rfc1951.canonical(dl)
+            b = rfc1951.Bits(data + b'\0' * 8)
+            b.p = p
+            sym = rfc1951.decode_sym(b, ll, codes_l)
+            ok = bfinal == 0 and btype == 2 and sym == (0x00, 0xff)[k] and b.p == 128 and rfc1951.kraft(ll) <= 1 and rfc1951.kraft(dl) <= 1
+            R.check(ok, 'igzip/repeated_char_result.h:repeated_char_header[%d]' % k, 'header %d: bfinal=%d btype=%d, first symbol %s ending at bit %d; expected a non-final dynamic header and the literal %#x ending at bit 128'
+                    % (k, bfinal, btype, sym, b.p, (0, 255)[k]), key='T-CONSTRUN|hdr%d' % k, sample='header %d: dynamic, literal %#04x, 128 bits' % (k, (0, 255)[k]))
+            tables.append((ll, codes_l, dl, codes_d))
+        except Exception as e:        # malformed header
+            R.fail('igzip/repeated_char_result.h:repeated_char_header[%d]' % k, 'header %d does not parse as an RFC 1951 dynamic block header (%s)' % (k, e), key='T-CONSTRUN|hdr%d' % k)
+    if len(tables) != 2:
+        return
+
+    def decode(bits, tbl, lit):
+        """-> (total run length, ended with EOB at the last bit) or raises"""
+        ll, cl, dl, cd = tbl
+        data = bytearray((len(bits) + 7) // 8 + 8)
+        for n, x in enumerate(bits):
+            data[n >> 3] |= x << (n & 7)
+        b = rfc1951.Bits(bytes(data))
+        total = 0
+        while b.p < len(bits):
+            s_ = rfc1951.decode_sym(b, ll, cl)
+            if s_ == 256:
+                return total, b.p == len(bits)
+            if s_ < 256:
+                if s_ != lit:
+                    raise ValueError('literal %#x' % s_)
+                total += 1
+                continue
+            L = rfc1951.LEN_BASE[s_ - 257] + b.get(rfc1951.LEN_EXTRA[s_ - 257])
+            d = rfc1951.decode_sym(b, dl, cd)
+            D = rfc1951.DIST_BASE[d] + b.get(rfc1951.DIST_EXTRA[d])
+            if D != 1:
+                raise ValueError('distance %d' % D)
+            total += L
+        return total, False
+    for k, tbl in enumerate(tables):
+        R.instance()
+        try:
+            t, _ = decode([0, 0], tbl, (0, 255)[k])
+        except Exception as e:
+            t = str(e)
+        R.check(t == 258, 'igzip/repeated_char_result.h:repeated_char_header[%d]' % k, 'two zero bits decode to a run of %s, expected length 258 at distance 1' % t, key='T-CONSTRUN|zz%d' % k, sample='header %d: bits 00 = match(258, 1)' % k)
+    # the partition variable
+    part = [i for i in f.all_insns() if i.op == 'urem' and i.ops[1] == '258']
+    if len(part) != 1:
+        raise AnalysisBroken('write_constant_compressed_stateless: expected one `% 258`, found ' + str(len(part)))
+    pv = part[0]
+    Ln = f.params[1][1]
+
+    def is_lm1(v):
+        d = f.defs.get(irrules._strip(f, v))
+        return d is not None and ((d.op == 'sub' and d.ops == [Ln, '1']) or (d.op == 'add' and d.ops == [Ln, '-1']))
+    R.instance()
+    R.check(is_lm1(pv.ops[0]), mod.where(f, pv), 'the fix-up length is not (repeated_length - 1) % 258', key='T-CONSTRUN|rem', sample='r = (repeated_length - 1) % 258')
+    # (d) zero bits
+    R.instance()
+    muls = [i for i in f.all_insns() if i.op in ('mul', 'shl') and (i.ops[1] == ('2' if i.op == 'mul' else '1'))]
+    okz = False
+    zmul = None
+    for m_ in muls:
+        d = f.defs.get(irrules._strip(f, m_.ops[0]))
+        if d is not None and d.op == 'udiv' and d.ops[1] == '258' and is_lm1(d.ops[0]):
+            zmul = m_.dst
+    if zmul:
+        cnt = [i for i in f.all_insns() if i.op == 'store' and 'm_bit_count' in i.ops[1]]
+        bits0 = [i for i in f.all_insns() if i.op == 'store' and re.search(r'm_bits\b', i.ops[1])]
+        ms = [i for i in f.all_insns() if i.op == 'call' and i.callee.startswith('llvm.memset')]
+
+        def from_z(v, op, k_):
+            d = f.defs.get(irrules._strip(f, v))
+            if d is None:
+                return False
+            if op == 'urem' and d.op == 'and' and d.ops[0] == zmul and d.ops[1] == str(k_ - 1):
+                return True
+            if op == 'udiv' and d.op == 'lshr' and d.ops[0] == zmul and d.ops[1] == '3':
+                return True
+            return d.op == op and d.ops[0] == zmul and d.ops[1] == str(k_)
+        okz = (len(cnt) == 1 and from_z(cnt[0].ops[0], 'urem', 8) and len(bits0) == 1 and bits0[0].ops[0] == '0' and len(ms) == 1 and ms[0].args[1][1] == '0' and from_z(ms[0].args[2][1], 'udiv', 8))
+    R.check(okz, where, 'the zero bits that stand for the 258-byte matches are not 2*((repeated_length-1)/258): whole bytes by memset(.., 0, bits/8), the rest as m_bit_count = bits % 8 with m_bits = 0',
+            key='T-CONSTRUN|zerobits', sample='memset(0, rep_bits/8); m_bit_count = rep_bits % 8; rep_bits = 2*((L-1)/258)')
+    for r in range(258):
+        R.instance()
+        seq = []
+        bad = []
+
+        def obs(i, env, ip):
+            if i.op == 'call' and re.sub(r'\.\d+$', '', i.callee) == 'write_bits':
+                v, c = ip.val(i.args[1][1], env), ip.val(i.args[2][1], env)
+                if v == constinterp.TOP or c == constinterp.TOP:
+                    bad.append('a write_bits argument depends on more than r (%s)' % mod.where(f, i))
+                else:
+                    v &= (1 << 64) - 1
+                    if v >> c:
+                        bad.append('write_bits(%#x, %d) at %s: the value does not fit in %d bits and corrupts the following code' % (v, c, mod.where(f, i), c))
+                    seq.append((v, c))
+        constinterp.Interp(mod, f, obs, value_hook=lambda i: r if i is pv else None).run()
+        msg = None
+        if bad:
+            msg = bad[0]
+        else:
+            bits = []
+            for v, c in seq:
+                bits += [(v >> n) & 1 for n in range(c)]
+            for k, tbl in enumerate(tables):
+                try:
+                    t, eob = decode(bits, tbl, (0, 255)[k])
+                    if t != r or not eob:
+                        msg = 'the fix-up codes %s decode (header %d) to a run of %d %s, expected exactly %d bytes then end-of-block' % (['%#x/%d' % x for x in seq], k, t, 'ending in end-of-block' if eob else 'WITHOUT a final end-of-block', r)
+                except Exception as e:
+                    msg = 'the fix-up codes %s do not decode under header %d (%s)' % (['%#x/%d' % x for x in seq], k, e)
+                if msg:
+                    break
+        R.check(msg is None, where, 'r = %d (e.g. a run of %d bytes): %s' % (r, r + 1 + 258 * 16, msg), key='T-CONSTRUN|r%d' % r, sample='r = 257: %s' % ['%#x/%d' % x for x in seq] if r == 257 else None)
+
+
 def main(tier):
     rep = Report('C01', tier, level='other')
     rep.undecided = UNDECIDED
@@ -466,6 +606,7 @@ def main(tier):
     import c18, llir
     Ku, _d = mirror.c_values('default', ['huff_codes.h', 'bitbuf2.h', 'igzip_lib.h'], [(n, n) for n in ('MAX_BITBUF_BIT_WRITE', 'DIST_LEN', 'LIT_LEN')], 'c01_useable')
     c18.check_useable_schedule(rep, llir.library('default'), Ku)
+    check_construn(rep, llir.library('default'))
     for c in CONFIGS:
         lay = hufftables_layout(c)
         unpack = unpack_consts(c)
